@@ -148,6 +148,32 @@ Theorem C08_tick_transcription :
 Proof. exact tick_transcription. Qed.
 Print Assumptions C08_tick_transcription.
 
+(** Tie of the ticker automaton to the GENERATED program of TickerControl::run (gen/LockFootprints.ticker_prog,
+    regenerated from the source on every run), modulo the explicit abstraction [tproj] = erase the MultiState
+    lock (CAcq/CRel CMulti) and the callbacks (CCallback), which the automaton does not model; the automaton's
+    TCheckFin and the non-parking outcomes of TCheckStop produce no event, TSleep = CWaitRel CStop, TRelock =
+    the following CAcq CStop.  [automaton_iteration ev] = some run of [lstep] labels (ticker steps with any
+    time-out answers, environment labels) of a freshly spawned ticker [tinit fi st false] (any finished flag,
+    any number of handles) that begins exactly one loop iteration and ends at the loop head or at the end of
+    run(), producing the events [ev].
+    (1) EVERY path of the generated loop body is, after [tproj], the event sequence of such a run - so the
+        protocol theorems about the automaton are about the code's paths; a change of the lock/condvar
+        structure of run() breaks this theorem (executable check [ticker_body_refines]: the abstract
+        interpreter with a 10-state acceptor, sound by acheck_sound; [dfa_words] classifies what it accepts).
+    (2) Conversely the three families of automaton iterations (upgrade fails / bar finished / tick then n
+        rounds of park + re-acquire, every n) are automaton runs, and
+    (3) those with n <= 3 are projections of paths of the generated body (bounded enumeration [enum_k]).
+    PARTIAL: not proved: that EVERY one-iteration run of the automaton yields a member of the three families
+    (only the converse inclusion), and (3) for n > 3. *)
+Theorem C08_ticker_automaton_refines_generated_partial :
+  exists body, ticker_prog = PLoop body /\
+    (forall tr, paths body tr -> automaton_iteration (tproj tr)) /\
+    (automaton_iteration it_upgrade_fails /\ automaton_iteration it_finished /\
+     forall n, automaton_iteration (it_tick n)) /\
+    (forall w, In w (fam_upto 3) -> exists tr, paths body tr /\ tproj tr = w).
+Proof. exact ticker_automaton_refines_generated. Qed.
+Print Assumptions C08_ticker_automaton_refines_generated_partial.
+
 (** (Definitional, about the hand-written [tick_inner]; tied to the source by C08_tick_transcription and by
     the harness cases CManualTick.)  Manual tick() while a ticker is installed (tick_inner: `if self.ticker.lock().is_none()`,
     progress_bar.rs:235-240) leaves the spinner tick unchanged, any number of times; without a
